@@ -280,3 +280,5 @@ def run(ctx):
     boundaries.check_calls(ctx, 'C01.RC', 'C01')
     from .. import boundaries as _b
     _b.check_predicates(ctx, 'C01.RP', 'C01')
+    from .. import boundaries as _b
+    _b.check_counts(ctx, 'C01.RQ', 'C01')
